@@ -381,32 +381,42 @@ Proof.
   rewrite Hs. cbn. now destruct (m_sigs m).
 Qed.
 
-Lemma in_flat_map_segment : forall {A B} (f : A -> list B) l x,
-  In x l -> exists pre post, flat_map f l = pre ++ f x ++ post.
+Definition seg {A} (big m : list A) : Prop := exists pre post, big = pre ++ m ++ post.
+
+Lemma seg_refl : forall {A} (l : list A), seg l l.
+Proof. intros. exists [], []. now rewrite app_nil_r. Qed.
+Lemma seg_trans : forall {A} (big l m : list A), seg big l -> seg l m -> seg big m.
 Proof.
-  induction l as [|y r IH]; intros x Hin; [contradiction|].
-  destruct Hin as [->|Hin].
-  - exists [], (flat_map f r). reflexivity.
-  - destruct (IH _ Hin) as [pre [post E]]. exists (f y ++ pre), post. cbn. now rewrite E, app_assoc.
+  intros A big l m [p [q ->]] [p' [q' ->]]. exists (p ++ p'), (q' ++ q).
+  now rewrite <- !app_assoc.
+Qed.
+Lemma seg_app_r : forall {A} (a l m : list A), seg l m -> seg (a ++ l) m.
+Proof. intros A a l m [p [q ->]]. exists (a ++ p), q. now rewrite <- app_assoc. Qed.
+Lemma seg_app_l : forall {A} (b l m : list A), seg l m -> seg (l ++ b) m.
+Proof. intros A b l m [p [q ->]]. exists p, (q ++ b). now rewrite <- !app_assoc. Qed.
+Lemma seg_flat_map : forall {A B} (f : A -> list B) l x, In x l -> seg (flat_map f l) (f x).
+Proof.
+  induction l as [|y r IH]; intros x Hin; [contradiction|]. cbn [flat_map].
+  destruct Hin as [->|Hin]; [apply seg_app_l, seg_refl|apply seg_app_r, IH, Hin].
 Qed.
 
-Lemma msg_segment : forall n m, In m (msgs_of_net n) ->
-  exists pre post, blocks n = pre ++ msg_blocks m ++ post.
+Lemma msg_segment : forall n m, In m (msgs_of_net n) -> seg (blocks n) (msg_blocks m).
 Proof.
   intros n m Hin. unfold msgs_of_net in Hin.
   apply in_flat_map in Hin as [x [Hx Hm]]. apply in_flat_map in Hx as [b [Hb Hx]].
-  destruct (in_flat_map_segment msg_blocks _ _ Hm) as [p1 [q1 E1]].
-  destruct (in_flat_map_segment nif_blocks _ _ Hx) as [p2 [q2 E2]].
-  destruct (in_flat_map_segment bus_blocks _ _ Hb) as [p3 [q3 E3]].
-  unfold blocks. rewrite E3. unfold bus_blocks at 1. rewrite E2. unfold nif_blocks at 1. rewrite E1.
-  eexists. eexists. repeat rewrite <- app_assoc. 
-  repeat rewrite app_assoc. rewrite <- !app_assoc.
-  match goal with |- ?a ++ ?rest = _ => idtac end.
-  rewrite !app_assoc. rewrite <- (app_assoc _ (msg_blocks m)). reflexivity.
+  apply seg_trans with (flat_map bus_blocks (nt_buses n)).
+  { unfold blocks. apply seg_app_r, seg_app_r, seg_app_l, seg_refl. }
+  apply seg_trans with (bus_blocks b); [now apply seg_flat_map|].
+  apply seg_trans with (flat_map nif_blocks (b_nifs b)).
+  { unfold bus_blocks. apply seg_app_r, seg_app_r, seg_app_r, seg_refl. }
+  apply seg_trans with (nif_blocks x); [now apply seg_flat_map|].
+  apply seg_trans with (flat_map msg_blocks (n_msgs x)).
+  { unfold nif_blocks. apply seg_app_r, seg_app_r, seg_app_r, seg_refl. }
+  now apply seg_flat_map.
 Qed.
 
 Lemma md_signal_rows_lemma : forall n m, In m (msgs_of_net n) ->
-  (exists pre post, blocks n = pre ++ msg_blocks m ++ post)
+  seg (blocks n) (msg_blocks m)
   /\ tables (msg_blocks m) =
        match m_sigs m with [] => [] | _ => [Table sig_header (rows_sigs 0 (m_sigs m))] end
   /\ Forall2 row_matches (rows_sigs 0 (m_sigs m)) (occs 0 (m_sigs m)).
@@ -494,7 +504,11 @@ Qed.
 
 Lemma appendix_in_blocks : forall n,
   exists pre, blocks n = pre ++ appendix_blocks n.
-Proof. intro n. unfold blocks. eexists. rewrite !app_assoc. reflexivity. Qed.
+Proof.
+  intro n. unfold blocks.
+  exists (preamble_blocks n ++ toc_blocks n ++ flat_map bus_blocks (nt_buses n)).
+  now rewrite <- !app_assoc.
+Qed.
 
 Lemma md_appendix_exact_lemma : forall n, well_formed n ->
   (exists pre, blocks n = pre ++ appendix_blocks n)
@@ -518,6 +532,12 @@ Proof.
          try (apply (listed_exact su_id); assumption);
          try (apply (listed_exact se_id); assumption).
 Qed.
+
+Lemma md_appendix_sound_lemma : forall n,
+  NoDup (map st_id (types_listed n))
+  /\ (forall a, In a (types_listed n) -> In a (all_types n))
+  /\ (forall a, In a (all_types n) -> exists a', In a' (types_listed n) /\ st_id a' = st_id a).
+Proof. intro n. exact (listed_sound st_id _ (all_types n)). Qed.
 
 (* ------------------------------------------------------------------ satisfiability *)
 Local Open Scope string_scope.
@@ -552,5 +572,5 @@ Proof. repeat split; solve_consistent. Qed.
 
 Lemma ex_net_nontrivial :
   List.length (types_listed ex_net) = 2%nat /\ List.length (enums_listed ex_net) = 1%nat
-  /\ List.length (rows_sigs 0 (m_sigs (hd (Build_msg "" "" false 0 0 0 "" 0 [] []) (msgs_of_net ex_net)))) = 13%nat.
+  /\ List.length (rows_sigs 0 (m_sigs (hd (Build_msg "" "" false 0 0 0 "" 0 [] []) (msgs_of_net ex_net)))) = 14%nat.
 Proof. vm_compute. repeat split. Qed.
